@@ -55,6 +55,11 @@ def replay_parser(stream, hist, variant):
                 got = [] if m is None else [list(m.bytes())]
                 if got != r:
                     return 'get', 'step %d: get_message() gave %r expected %r' % (i, m, r)
+                if m is not None:
+                    # what was retrieved is the caller's: it arrives unstamped and may be stamped
+                    if m.time != 0:
+                        return 'get-stamped', 'step %d: get_message() gave a message that already carries time %r' % (i, m.time)
+                    m.time = 12.5
                 if (m is None) != (n == 0):
                     return 'get-none', 'step %d' % i
             elif op == 'iter1':
@@ -62,6 +67,10 @@ def replay_parser(stream, hist, variant):
                 m = next(it, None)
                 got = [] if m is None else [list(m.bytes())]
                 del it                       # the iteration is abandoned
+                if m is not None:
+                    if m.time != 0:
+                        return 'iter-one-step-stamped', 'step %d: message already carries time %r' % (i, m.time)
+                    m.time = 3
                 if got != r:
                     return 'iter-one-step', 'step %d: next(iter(parser)) gave %r expected %r' % (i, m, r)
             elif op == 'pending':
@@ -69,7 +78,12 @@ def replay_parser(stream, hist, variant):
                     return 'pending', 'step %d: pending()=%r expected %d' % (i, p.pending(), n)
             elif op == 'iter':
                 before = p.pending()
-                got = [list(m.bytes()) for m in p]
+                ms = list(p)
+                got = [list(m.bytes()) for m in ms]
+                if any(m.time != 0 for m in ms) or len({id(m) for m in ms}) != len(ms):
+                    return 'iter-stamped', 'step %d: iteration yielded shared or already stamped messages %s' % (i, core.srepr(ms))
+                for m in ms:
+                    m.time = 7
                 if got != r or before != n:
                     return 'iter', 'step %d: iteration gave %r expected %r (pending before %d)' % (
                         i, got, r, before)
